@@ -10,6 +10,12 @@ ALLV = {"": [1], "control": [1], "control+": [1]}
 ODE_ALL = E("f", None, ("x", "u", "t", "p", "pc", "pcp", "v", "vc", "vcp"))
 
 
+NONUNIFORM = (("geometric", dict(kind="geometric", growth=2.0, local=True), ("unknown",)),
+              ("geometric-Tfree", dict(kind="geometric", growth=2.0), ("free", 1.0)),
+              ("localizeT", dict(kind="uniform", localize_T=True), ("free", 1.0)),
+              ("freegrid", dict(kind="free"), ("free", 1.0)))
+
+
 def _mk(**kw):
     return lambda: Spec(**kw)
 
@@ -55,6 +61,15 @@ def c04(tier):
                 out.append(("%s-N%d-M%d-basic" % (meth, N, M),
                             _mk(method=meth, N=N, M=M, degree=2, params={"": [1], "control": [1]}, variables={"": [1], "control": [1]},
                                 ode=E("f", None, ("x", "u", "t")), constraints=cons_basic())))
+        # non-uniform / decision-dependent time grids (interior integrator points, interval lengths differ)
+        for gl, g, Tk in (("geometric", dict(kind="geometric", growth=2.0, local=True), ("unknown",)),
+                          ("geometric-Tfree", dict(kind="geometric", growth=2.0), ("free", 1.0)),
+                          ("localizeT", dict(kind="uniform", localize_T=True), ("free", 1.0)),
+                          ("freegrid", dict(kind="free"), ("free", 1.0))):
+            out.append(("%s-N3-M2-basic-%s" % (meth, gl),
+                        _mk(method=meth, N=3, M=2, degree=2, grid=g, T=Tk, t0=("unknown",), params={"": [1], "control": [1]}, variables={"": [1], "control": [1]},
+                            ode=E("f", None, ("x", "u", "t")), constraints=cons_basic() + [Con(E("cd", 1, ("x", "t", "DT", "DT_control")), "le", 2.0),
+                                                                                           Con(E("ce", 1, ("x", "t", "DT", "DT_control")), "le", 2.0, grid="integrator")])))
         # shifted operands
         for o in (1, -1, 2, -2):
             out.append(("%s-N3-offset%+d" % (meth, o),
@@ -98,6 +113,10 @@ def c05(tier):
             out.append(("%s-integral-control-%s" % (meth, "geometric" if gk["kind"] == "geometric" else "localizeT"),
                         _mk(method=meth, N=3, M=1, degree=2, T=("free", 1.0), grid=gk, ode=E("f", None, ("x", "u", "t")),
                             objective=[("integral", E("Lc", 1, ("x", "u")), dict(grid="control"))])))
+        for gl, g, Tk in NONUNIFORM:
+            out.append(("%s-terms-%s" % (meth, gl),
+                        _mk(method=meth, N=3, M=2, degree=2, grid=dict(g), T=Tk, t0=("unknown",), params={"": [1], "control": [1]},
+                            variables={"": [1], "control": [1]}, ode=E("f", None, ("x", "u", "t")), objective=terms())))
         out.append(("%s-two-integrals" % meth, _mk(method=meth, N=2, M=1, degree=2, ode=E("f", None, ("x", "u", "t")),
                                                    objective=[("integral", E("L1", 1, ("x", "u"))), ("integral", E("L2", 1, ("x", "t")))])))
     for d in range(1, 6):
